@@ -3,7 +3,7 @@ check (composed by the main session from the tcp / udp / listener parts); it wri
 
 1. TLC exhaustive: 2 concurrent connections x every failure class x listener closed at any moment: no goroutine/socket
    left at rest, StreamServe returns only after all handlers, a step of one connection never touches another
-   (MC_TcpConn_C18.cfg); every handler path terminates (MC_TcpConn_C18Live1.cfg, and the 2-connection MC_TcpConn_C18Live.cfg
+   (MC_TcpConn_C18Quick.cfg without corrupt chunks in the quick tier, MC_TcpConn_C18.cfg in the thorough tier); every handler path terminates (MC_TcpConn_C18Live1.cfg, and the 2-connection MC_TcpConn_C18Live.cfg
    in the thorough tier).
 2. spec -> code in a CHILD PROCESS (harness/cmd/tcpconn replay -leak): TLC behaviours with 2 connections and listener
    shutdown at any point; TLC behaviours whose abstract tokens are instantiated with the crafted authenticated plaintext
@@ -24,6 +24,7 @@ def _sig(kind, where="service/tcp.go"):
 
 def family(ctx, behs, label, timeout_ms, unit_ms=200, par=8, extra=(), injected=False):
     """One scenario family in a child process with leak accounting; all findings are reported here."""
+    vlib.log("c18_tcp family %s: %d behaviours" % (label, len(behs)))
     try:
         cases, brows, _, cmd = tc.replay(ctx, behs, label=label, timeout_ms=timeout_ms, unit_ms=unit_ms, par=par,
                                          extra=["-leak"] + list(extra))
@@ -91,13 +92,13 @@ def family(ctx, behs, label, timeout_ms, unit_ms=200, par=8, extra=(), injected=
     return cases, brows
 
 
-def with_craft(behs, crafts, rng, want):
+def with_craft(behs, crafts, rng, want, quick=True):
     out = []
     for cr in crafts:
         cand = [b for b in behs if want(cr, tc.features(b), [tc.KIND.get(e["v"] // 10) for e in b["tr"] if e["a"] == "CSend"],
                                         [e["a"] for e in b["tr"] if e["a"] in tc.ENV])]
         rng.shuffle(cand)
-        for b in cand[:3]:
+        for b in cand[:2 if quick else 4]:
             b = copy.deepcopy(b)
             b["ov"] = {"craft": cr}
             out.append(b)
@@ -106,10 +107,10 @@ def with_craft(behs, crafts, rng, want):
 
 def run_part(ctx):
     q = ctx.quick
-    r = vlib.tlc(ctx, "TcpConn", "MC_TcpConn_C18.cfg", workers="auto", timeout=2400)
+    r = vlib.tlc(ctx, "TcpConn", "MC_TcpConn_C18Quick.cfg" if q else "MC_TcpConn_C18.cfg", workers="auto", timeout=2400)
     ctx.add_tlc(r, "TcpConn: 2 connections x failure classes x listener shutdown: no leak, StreamServe waits, isolation")
     if not r.ok:
-        raise vlib.Inconclusive("model finding in TcpConn.tla / MC_TcpConn_C18.cfg: %s" % r.violated)
+        raise vlib.Inconclusive("model finding in TcpConn.tla / MC_TcpConn_C18*.cfg: %s" % r.violated)
     r1 = vlib.tlc(ctx, "TcpConn", "MC_TcpConn_C18One.cfg", workers="auto", timeout=2400)
     ctx.add_tlc(r1, "TcpConn: one connection, listener closed at any moment (dial with cancelled context): all property families")
     if not r1.ok:
@@ -122,14 +123,15 @@ def run_part(ctx):
     rng = random.Random(ctx.seed)
     # (a) two connections, listener closed at any point, every failure class
     b2 = tc.gen(ctx, "Gen_TcpConn_C18.cfg", 1500 if q else 12000, seed=ctx.seed, depth=220)
-    pick = tc.select(b2, 80 if q else 800, lambda f: (f["hs"], f["tk"], f["bad"], f["rst"], f["lclose"]), rng)
+    pick = tc.select(b2, 60 if q else 800, lambda f: (f["hs"], f["tk"], f["bad"], f["rst"], f["lclose"]), rng)
     if len(pick) < (50 if q else 300):
         raise vlib.Inconclusive("only %d two-connection behaviours" % len(pick))
     family(ctx, pick, "c18-two-connections-shutdown", 600, unit_ms=300, par=8)
     ctx.cov["distinct_nontrivial"] += len(pick)
 
     # (b) crafted authenticated plaintext / target behaviours: TLC behaviours instantiated per input class
-    b1 = tc.gen(ctx, "Gen_TcpConn_C15NoClock.cfg", 2500 if q else 10000, seed=ctx.seed + 3)
+    b1 = tc.gen(ctx, "Gen_TcpConn_C15NoClock.cfg", 2500 if q else 10000, seed=ctx.seed + 3) + \
+        tc.gen(ctx, "Gen_TcpConn_C15Relay.cfg", 1500 if q else 6000, seed=ctx.seed + 13)
     b1 = [b for b in b1 if b["sc"][0]["hs"] == "valid"]
 
     def want(cr, f, toks, env):
@@ -142,12 +144,12 @@ def run_part(ctx):
         return f["dial"] and f["tk"][0] == "ok" and "data" in toks and not f["bad"]     # zero / overlen / full
     crafts = ["atyp-0", "atyp-2", "atyp-5", "atyp-255", "domlen-0", "domlen-1", "domlen-255",
               "trunc-1", "trunc-2", "trunc-3", "trunc-5", "trunc-6", "zero", "overlen", "full", "slow"]
-    cb = with_craft(b1, crafts, rng, want)
+    cb = with_craft(b1, crafts, rng, want, q)
     classes = sorted({b["ov"]["craft"] for b in cb})
     if len(classes) < len(crafts):
         raise vlib.Inconclusive("crafted classes without a matching TLC behaviour: %s" % sorted(set(crafts) - set(classes)))
     tgt = tc.select([b for b in b1 if tc.features(b)["tk"][0] == "refuse" or tc.features(b)["rst"] or
-                     (tc.features(b)["dial"] and not tc.features(b)["trecv"])], 30 if q else 200,
+                     (tc.features(b)["dial"] and not tc.features(b)["trecv"])], 20 if q else 200,
                     lambda f: (f["tk"], f["rst"], f["bad"]), rng)
     family(ctx, cb + tgt, "c18-crafted-plaintext-and-targets", 5000, par=8)
     ctx.cov["distinct_nontrivial"] += len(cb) + len(tgt)
@@ -210,7 +212,7 @@ def run_part(ctx):
 
     # (c) raw garbage and replays with a short timeout (probe classes), many at once
     g = tc.gen(ctx, "Gen_TcpConn_C06NoFin.cfg", 600 if q else 4000, seed=ctx.seed + 4)
-    gp = tc.select(g, 40 if q else 400, lambda f: (f["hs"], min(f["ntok"], 4)), rng)
+    gp = tc.select(g, 30 if q else 400, lambda f: (f["hs"], min(f["ntok"], 4)), rng)
     family(ctx, gp, "c18-raw-garbage", 600, unit_ms=300, par=16)
     ctx.cov["distinct_nontrivial"] += len(gp)
     tc.finish(ctx)
